@@ -72,12 +72,67 @@ def doParse (verbose : Bool) (start cap hex : String) : String :=
     | (.err e, st) => s!"err {e} {st.dir} {st.vers.length}"
     | (.oof, _) => "oof"
 
+/-! ### C16: iterator models on a tree sent by the harness -/
+
+/-- tokens: `N<kind>` opens a node, `)` closes it, `L<off>,<len>,<line>` is a leaf -/
+def parseTree (toks : List String) : Option Tree := Id.run do
+  -- stack of (kind, children so far in reverse)
+  let mut stack : List (Nat × List Tree) := []
+  let mut roots : List Tree := []
+  for t in toks do
+    if t == ")" then
+      match stack with
+      | (k, kids) :: rest =>
+        let node := Tree.node k kids.reverse
+        match rest with
+        | (k2, kids2) :: rest2 => stack := (k2, node :: kids2) :: rest2
+        | [] => stack := []; roots := node :: roots
+      | [] => return none
+    else if t.startsWith "N" then
+      stack := ((t.drop 1).toString.toNat?.getD 0, []) :: stack
+    else if t.startsWith "L" then
+      match (t.drop 1).toString.splitOn "," with
+      | [a, b, c] =>
+        let leaf := Tree.leaf (a.toNat?.getD 0) (b.toNat?.getD 0) (c.toNat?.getD 0)
+        match stack with
+        | (k2, kids2) :: rest2 => stack := (k2, leaf :: kids2) :: rest2
+        | [] => roots := leaf :: roots
+      | _ => return none
+    else return none
+  match roots, stack with
+  | [t], [] => return some t
+  | _, _ => return none
+
+def treeHash (h : UInt64) : Tree → UInt64
+  | .leaf o l n => fnvStep (fnvStep (fnvStep (fnvStep h 1) o) l) n
+  | .node k _ => fnvStep (fnvStep h 2) k
+
+def evHash (h : UInt64) : Event → UInt64
+  | .enter t => treeHash h t
+  | .leave (.leaf ..) => fnvStep h 4
+  | .leave (.node k _) => fnvStep (fnvStep h 3) k
+
+def rangeStr : Option (Nat × Nat) → String
+  | none => "none"
+  | some (b, e) => s!"{b}-{e}"
+
+def doC16 (ws : String) (toks : List String) : String :=
+  match parseTree toks with
+  | none => "bad-tree"
+  | some t =>
+    let it := iterAll [t]
+    let ev := evAll [t]
+    let ih := it.foldl treeHash 14695981039346656037
+    let eh := ev.foldl evHash 14695981039346656037
+    s!"{ih} {it.length} {eh} {ev.length} {rangeStr (getStrRange it)} {rangeStr (getStrTrimRange (ws.toNat?.getD 0) ev)}"
+
 def step (line : String) : String :=
   match line.trimAscii.toString.splitOn " " with
   | ["parse", start, cap, hex] => doParse false start cap hex
   | ["parse", start, cap] => doParse false start cap ""
   | ["parsev", start, cap, hex] => doParse true start cap hex
   | ["parsev", start, cap] => doParse true start cap ""
+  | "c16" :: ws :: toks => doC16 ws toks
   | _ => "bad-op"
 
 partial def loop (h : IO.FS.Stream) (out : IO.FS.Stream) : IO Unit := do
